@@ -177,7 +177,7 @@ def run_lines(exe, lines, timeout=600, cwd=None, env=None):
     return results
 
 
-SAN_ENV = {"ASAN_OPTIONS": "exitcode=99:detect_leaks=0:abort_on_error=0", "UBSAN_OPTIONS": "exitcode=99:halt_on_error=1:print_stacktrace=1"}
+SAN_ENV = {"ASAN_OPTIONS": "exitcode=99:detect_leaks=0:abort_on_error=0:hard_rss_limit_mb=3000", "UBSAN_OPTIONS": "exitcode=99:halt_on_error=1:print_stacktrace=1"}
 
 
 def run_both(cases, flavour="plain"):
